@@ -61,6 +61,23 @@ def generate(R, tier):
             s = G.matching_sig(R, G.rand_pkt(R), md)
             st = "random"
         yield {"stream": st, "md": md, "sig": s, "pkt": p}
+    # the same decision reached through fingerprint_tcp on real bytes (C02's case format): extraction, TCPSignature.parse and the
+    # matcher together; SYN / SYN+ACK with every extra flag bit, link framing, option layouts
+    from harness.props import c02
+    for c in c02.single_record_cases(R, n // 15, "api-one-record"):
+        yield c
+
+
+def model_cases(cases, impl_res, run_model):
+    from harness.props import c02
+    out = [None] * len(cases)
+    api = [i for i, c in enumerate(cases) if c.get("api")]
+    for i, r in zip(api, c02.model_cases([cases[i] for i in api], [impl_res[i] for i in api], run_model)):
+        out[i] = r
+    rest = [i for i, c in enumerate(cases) if not c.get("api")]
+    for i, r in zip(rest, run_model([model_line(cases[i]) for i in rest])):
+        out[i] = r
+    return out
 
 
 def model_line(c):
@@ -75,7 +92,12 @@ def impl_init():
     from pyp0f.net.signatures import TCPPacketSignature
     from pyp0f.options import Options
 
+    from harness.props import c02
+    api_impl = c02.impl_init()
+
     def impl(c):
+        if c.get("api"):
+            return api_impl(c)
         p = c["pkt"]
         sig = TCPSignature.parse(G.sig_text(c["sig"]))
         ps = TCPPacketSignature(ip_version=p["ver"], ip_options_length=p["olen"], ttl=p["ttl"], window_size=p["win"],
@@ -89,14 +111,25 @@ def impl_init():
 
 
 def outcome(c, ir, mr):
+    if c.get("api"):
+        from harness.props import c02
+        return "api:" + c02.outcome(c, ir, mr)
     return str(mr[0]) if isinstance(mr, list) else "model-error"
 
 
 def nontrivial(c, ir, mr):
+    if c.get("api"):
+        return isinstance(mr, dict) and "ok" in mr and mr["ok"][0] is not None
     return isinstance(mr, list) and mr[0] is not None
 
 
 def judge(c, ir, mr):
+    if c.get("api"):
+        from harness.props import c02
+        v = c02.judge(c, ir, mr)
+        if v:
+            v["kind"] = "fingerprint_tcp on real bytes: match verdict differs from the p0f rules applied to what the headers say"
+        return v
     if ir == mr:
         return None
     return {"kind": "match verdict differs from the p0f rules", "why": "sig %r: impl %s, verified model %s" % (G.sig_text(c["sig"]), ir, mr),
@@ -104,6 +137,8 @@ def judge(c, ir, mr):
 
 
 def shrink(c):
+    if c.get("api"):
+        return
     s, p = c["sig"], c["pkt"]
     if c["md"] != 35:
         yield dict(c, md=35)
@@ -132,7 +167,7 @@ COQ_CHECKER = "check_match"
 
 
 def coq_case(c, mr):
-    if not isinstance(mr, list):
+    if c.get("api") or not isinstance(mr, list):
         return None
     m = {None: "None", "EXACT": "Some Exact", "FUZZY_TTL": "Some FuzzyTTL", "FUZZY_QUIRKS": "Some FuzzyQuirks"}[mr[0]]
     return "(%d, %s, %s, (%s, %s))" % (c["md"], G.coq_sig(c["sig"]), G.coq_pkt(c["pkt"]), m, G.coq_wm(mr[1]))
